@@ -25,6 +25,21 @@ def embed(env, Q, inner, pos):
         return Q.from_(o).select(o.k).where(o.k == inner)
     if pos == "select-item":
         return Q.from_(o).select(o.k, inner)
+    if pos == "in-bool-group":   # the operand sits in a bracketed AND group under an OR
+        return Q.from_(o).select(o.k).where((o.k == 1) | ((o.j == 2) & o.k.isin(inner)))
+    if pos == "cmp-bool-group":
+        return Q.from_(o).select(o.k).where((o.k == 1) | ((o.j == 2) & (o.k == inner)))
+    if pos == "in-not":
+        return Q.from_(o).select(o.k).where(o.k.isin(inner).negate() & ~(o.j == 2))
+    if pos == "join-on-operand":
+        t2 = P.Table("ot2")
+        return Q.from_(o).join(t2).on((o.k == t2.k) & o.j.isin(inner)).select(o.k)
+    if pos == "having-operand":
+        return Q.from_(o).select(o.k).groupby(o.k).having(P.functions.Max(o.j) > inner)
+    if pos == "function-arg":
+        return Q.from_(o).select(P.functions.Coalesce(inner, 0))
+    if pos == "case-branch":
+        return Q.from_(o).select(P.Case().when(o.k == 1, inner).else_(0))
     if pos == "cte":
         return Q.with_(inner, "cq").from_(P.AliasedQuery("cq")).select("a")
     if pos == "insert-select":
@@ -99,6 +114,8 @@ def run(tier: str) -> int:
     events, meta = [], []
     for d, Q in core.query_classes().items():
         for h in hs:
+            if h["pos"] == "insert-select" and any(c["m"] == "with_" for c in h["hist"]):
+                continue  # WITH legitimately precedes INSERT INTO: not an embedding of the text after a prefix
             try:
                 ev = observe(Q, d, h)
             except core.MachineryError:
